@@ -60,6 +60,22 @@ Definition limits_respected (c : config) (p : pool) : Prop :=
   (queued_count p <= global_queue c \/
    forall a, is_local p a = false -> queue_len p a = 0).
 
+(* Clause 8: an account is treated as local (exempt from the limits, the price
+   floor and eviction) only if it was configured as local or a submission of it
+   flagged local was ACCEPTED (error nil) at some point of the history. *)
+Fixpoint accepted_senders (l : list tx) (errs : list N) : list N :=
+  match l, errs with
+  | t :: r, e :: es => if N.eqb e E_ok then t_from t :: accepted_senders r es else accepted_senders r es
+  | _, _ => []
+  end.
+(* the accounts whose local submission the op [o], run on pool [p], accepts *)
+Definition local_accepts (p : pool) (o : op) : list N :=
+  match o with
+  | OAdd l local _ | OAddLocked l local =>
+    if eff_local p local then accepted_senders l (fst (fst (add_txs_locked p l true))) else []
+  | _ => []
+  end.
+
 (* the history used as witness of the listed finding and in the non-vacuity
    examples: head A mined nonces 3,4 of account 0; the pool takes 5,6,7 (and
    two transactions of account 1, one of them gapped); then the chain switches
